@@ -42,6 +42,7 @@ def run(F, R):
     eps = queue_entry_points(F, M)
     R.count('entry_points', len(eps))
     idx_writer_fns = []
+    idx_fields = {}
     for b in eps:
         sg = supergraph(F, b['id'])
         acc = device_accesses(sg, M)
@@ -109,6 +110,10 @@ def run(F, R):
                 v = ist.value
                 ok3, why3 = monotone_value(sg, ist, v)
                 R.check(ok3, 'O3', inst + ':value', site(sg, ist.node), why3, why3)
+                # one private counter feeds avail.idx: the field the submission path increments, nothing else
+                flds = sorted(set(x[1][2][-1][1] for x in subterms(v) if x[0] in ('load', 'load0') and x[1][2] and x[1][2][-1][0] == 'f'
+                                  and x[1][2][-1][2] == M.queue_adt))
+                idx_fields.setdefault(tuple(flds), []).append((b['id'], site(sg, ist.node)))
             # O6 every descriptor field the device follows is refreshed from the shadow table before publication
             from .C01 import f6_coherence
             f6_coherence(F, R, M, sg, acc, rule='O6')
@@ -156,6 +161,15 @@ def run(F, R):
             'writers of avail.idx: %s' % sorted(writers),
             'avail.idx is written outside the queue type: %s' % sorted(writers - allowed))
     R.count('idx_writer_fns', len(idx_writer_fns))
+    from . import C05 as _c5
+    _roles = _c5.classify_api(_c5.queue_api(F, M))
+    _adds = [k for k, v_ in _roles.items() if v_ == 'add']
+    tfield = _c5.trusted_avail_field(F, M, _adds[0]) if _adds else None
+    other = {k: v_ for k, v_ in idx_fields.items() if k != (tfield,)}
+    R.check(tfield is not None and not other and (tfield,) in idx_fields, 'O3', 'avail.idx:single-source', '',
+            'every avail.idx store publishes the private submission counter `%s` (%d stores)' % (tfield, sum(len(v_) for v_ in idx_fields.values())),
+            'avail.idx is also written from %s at %s: the device-visible available index can move backwards / cover entries that were never written' % (
+                [list(k) for k in other], [w for v_ in other.values() for _, w in v_][:2]))
 
 
 def monotone_value(sg, ist, v):
